@@ -285,3 +285,44 @@ fn letcopy(out: List[Tk0]) { let a = mk0(); let b = a; out.push(b); }
     f.call(out.clone());
     println!("letcopy: len {} out {} live {}", l.len(), out.len(), live());
 }
+
+/// nested lists from scripts: a pushed list stays shared, `==` / `contains` go
+/// through `ErasedList::eq` one level down
+pub fn nested_probe() -> Vec<(&'static str, bool, String)> {
+    let rt = Runtime::new();
+    let src = "
+fn push_then_grow(o: List[List[u64]], i: List[u64]) -> bool {
+    o.push(i);
+    i.push(9);
+    match o.get(o.len() - 1) { Some(x) => x.contains(9), None => false }
+}
+fn eqn(a: List[List[u64]], b: List[List[u64]]) -> bool { a == b }
+fn has(a: List[List[u64]], b: List[u64]) -> bool { a.contains(b) }
+fn lit() -> List[List[u64]] { let x = [1, 2]; let o = [x, x, [3]]; x.push(7); o }
+fn total(o: List[List[u64]]) -> u64 { let n = 0; for l in o { for v in l { n = n + v; } } n }
+";
+    let mut pkg = match FileTree::test_file("nested.roto", src, 0).compile(&rt) {
+        Ok(p) => p,
+        Err(e) => return vec![("script-compiles", false, format!("{e}"))],
+    };
+    let mut out = vec![];
+    let vv = |o: &List<List<u64>>| -> Vec<Vec<u64>> { o.to_vec().iter().map(|l| l.to_vec()).collect() };
+    let f: F<fn(List<List<u64>>, List<u64>) -> bool> = pkg.get_function("push_then_grow").unwrap();
+    let o = List::<List<u64>>::new();
+    let i = List::<u64>::from(vec![1]);
+    let r = f.call(o.clone(), i.clone());
+    out.push(("script-push-shares", r && vv(&o) == vec![vec![1, 9]] && i.to_vec() == vec![1, 9], format!("{r} {:?}", vv(&o))));
+    let eqn: F<fn(List<List<u64>>, List<List<u64>>) -> bool> = pkg.get_function("eqn").unwrap();
+    let o2 = List::<List<u64>>::from(vec![List::from(vec![1, 9])]);
+    out.push(("script-eq-by-contents", eqn.call(o.clone(), o2.clone()) && eqn.call(o2.clone(), o.clone()) && eqn.call(o.clone(), o.clone()), "".into()));
+    o2.get(0).unwrap().push(2);
+    out.push(("script-eq-after-inner-push", !eqn.call(o.clone(), o2.clone()), "".into()));
+    let has: F<fn(List<List<u64>>, List<u64>) -> bool> = pkg.get_function("has").unwrap();
+    out.push(("script-contains-by-contents", has.call(o.clone(), List::from(vec![1, 9])) && !has.call(o.clone(), List::from(vec![1])), "".into()));
+    let lit: F<fn() -> List<List<u64>>> = pkg.get_function("lit").unwrap();
+    let l = lit.call();
+    out.push(("script-literal-shares", vv(&l) == vec![vec![1, 2, 7], vec![1, 2, 7], vec![3]], format!("{:?}", vv(&l))));
+    let total: F<fn(List<List<u64>>) -> u64> = pkg.get_function("total").unwrap();
+    out.push(("script-nested-for", total.call(l.clone()) == 23, format!("{}", total.call(l.clone()))));
+    out
+}
